@@ -79,7 +79,7 @@ fn check_radix(ctx: &Ctx, total: &mut Report) {
     let cases = radix_strings(ctx.quick());
     let reqs: Vec<J> = cases.iter().map(|(b, s)| json!({"op":"int","s":s,"base":b})).collect();
     let answers = oracle::python(&reqs);
-    let cfg = util::ForkCfg { threads: ctx.threads, mem_bytes: 4 << 30, case_timeout_s: 60, died_signature: "C20/abort".into() };
+    let cfg = util::ForkCfg { threads: ctx.threads, mem_bytes: 4 << 30, case_timeout_s: 60, died_signature: "C20/abort".into(), resource_is_violation: false };
     let r = util::par_forked(&cfg, 64, |sh| {
         let mut rep = Report::new();
         let arena = Arena::new();
@@ -331,7 +331,7 @@ fn check_base64(ctx: &Ctx, total: &mut Report) {
         dec_in.push(s.to_string());
     }
     let dec = oracle::python(&dec_in.iter().map(|s| json!({"op":"b64dec","s":s})).collect::<Vec<_>>());
-    let cfg = util::ForkCfg { threads: ctx.threads, mem_bytes: 4 << 30, case_timeout_s: 60, died_signature: "C20/abort".into() };
+    let cfg = util::ForkCfg { threads: ctx.threads, mem_bytes: 4 << 30, case_timeout_s: 60, died_signature: "C20/abort".into(), resource_is_violation: false };
     let r = util::par_forked(&cfg, 64, |sh| {
         let mut rep = Report::new();
         let arena = Arena::new();
@@ -397,7 +397,7 @@ fn check_base64(ctx: &Ctx, total: &mut Report) {
 }
 
 fn check_utf8(ctx: &Ctx, total: &mut Report) {
-    let cfg = util::ForkCfg { threads: ctx.threads, mem_bytes: 4 << 30, case_timeout_s: 60, died_signature: "C20/abort".into() };
+    let cfg = util::ForkCfg { threads: ctx.threads, mem_bytes: 4 << 30, case_timeout_s: 60, died_signature: "C20/abort".into(), resource_is_violation: false };
     let border: Vec<u8> = vec![0x00, 0x7F, 0x80, 0xBF, 0xC0, 0xC1, 0xC2, 0xDF, 0xE0, 0xED, 0xEF, 0xF0, 0xF4, 0xF5, 0xFF, 0x9F, 0xA0, 0x8F, 0x90];
     let mut seqs: Vec<Vec<u8>> = Vec::new();
     for len in 0..=(if ctx.quick() { 3 } else { 4 }) {
@@ -567,7 +567,7 @@ fn xml_decode(s: &str) -> Option<String> {
 }
 
 fn check_escapes(ctx: &Ctx, total: &mut Report) {
-    let cfg = util::ForkCfg { threads: ctx.threads, mem_bytes: 4 << 30, case_timeout_s: 60, died_signature: "C20/abort".into() };
+    let cfg = util::ForkCfg { threads: ctx.threads, mem_bytes: 4 << 30, case_timeout_s: 60, died_signature: "C20/abort".into(), resource_is_violation: false };
     let alpha: Vec<char> = vec!['a', '"', '\'', '\\', '$', '<', '>', '&', '\n', '\t', '\u{0}', '\u{1a}', '\u{1f}', '\u{7f}', '\u{85}', 'é', '😀', ' ', '`', '!'];
     let mut strs: Vec<String> = Vec::new();
     for len in 0..=(if ctx.quick() { 2 } else { 3 }) {
@@ -637,7 +637,7 @@ fn check_escapes(ctx: &Ctx, total: &mut Report) {
 pub fn run(ctx: &Ctx) -> i32 {
     let mut total = Report::new();
     check_radix(ctx, &mut total);
-    let cfg = util::ForkCfg { threads: ctx.threads, mem_bytes: 4 << 30, case_timeout_s: 120, died_signature: "C20/abort".into() };
+    let cfg = util::ForkCfg { threads: ctx.threads, mem_bytes: 4 << 30, case_timeout_s: 120, died_signature: "C20/abort".into(), resource_is_violation: false };
     let jl = if ctx.quick() { 3 } else { 5 };
     for len in 1..=jl {
         let r = util::par_forked(&cfg, if len >= 4 { 512 } else { 64 }, |sh| json_sweep(len, sh));
